@@ -489,6 +489,15 @@ impl<'a, 'tcx> Cx<'a, 'tcx> {
                         let bytes = a.inspect_with_uninit_and_ptr_outside_interpreter(off..len);
                         v.push(("bytes", J::s(String::from_utf8_lossy(bytes).to_string())));
                         v.push(("bytes_len", J::Num((len - off) as i128)));
+                        let hex: String = bytes.iter().map(|b| format!("{:02x}", b)).collect();
+                        v.push(("pbytes", J::s(hex)));
+                        if bytes.len() <= 16 && !bytes.is_empty() {
+                            let mut x: u128 = 0;
+                            for (i, b) in bytes.iter().enumerate() {
+                                x |= (*b as u128) << (8 * i);
+                            }
+                            v.push(("pv", J::Big(x)));
+                        }
                     }
                 }
             }
